@@ -9,6 +9,7 @@ import (
 	"strings"
 
 	"github.com/anoideaopen/foundation/core/balance"
+	"github.com/anoideaopen/foundation/core/cctransfer"
 	fpb "github.com/anoideaopen/foundation/proto"
 	"github.com/golang/protobuf/proto" //nolint:staticcheck
 )
@@ -52,7 +53,7 @@ func c20Query(w *World, size int64, bm string) (string, *c20Page) {
 	return fmt.Sprintf("QOk %s %s", coqList(ids), coqStr(p.Bookmark)), &p
 }
 
-func c20Case(c *Ctx, ids []string, junk []string, walkSizes []int64) error {
+func c20Case(c *Ctx, ids []string, junk []string, walkSizes []int64, keepAll bool) error {
 	rng := c.Rng
 	w := NewWorld()
 	if _, err := w.AddToken("TT", ChanOpts{}); err != nil {
@@ -73,7 +74,7 @@ func c20Case(c *Ctx, ids []string, junk []string, walkSizes []int64) error {
 	}
 	// life cycle: commit / cancel / delete some
 	for _, id := range ids {
-		if !created[id] {
+		if !created[id] || keepAll {
 			continue
 		}
 		switch rng.Intn(5) {
@@ -245,9 +246,9 @@ func errClassShort(msg string) string {
 
 func genC20(c *Ctx) error {
 	c.ShardSize = 6
-	c.Notes["rule"] = "each case: fresh chaincode; 0-9 origin-side transfers created through signed batched channelTransferByCustomer with ids from a pool (ids that are prefixes of each other, ids that differ only by trailing or leading white space, ids at and beyond '~', multi-byte ids, duplicate ids, and ids on which path.Join is not concatenation: '.', '..', 'a/', '../to/x', 'a//b'), then committed / cancelled / committed+deleted at random; two destination-side records and unrelated keys just outside the range; all page sizes 1..n+1 and the two largest sizes the interface takes (2^31-2, 2^31-1) walked from the empty bookmark; single queries for sizes {1,2,n,n+1,2^31-1,0,-1,-100} x bookmarks {empty, every transfer key, keys outside the range, a non-existing key inside the range, the end key}. Plus long listings: 130-260 records created in a permuted order, walked with page sizes 1, 7, 64, 99, 100, 101, 115, n-1, n, n+3, 1000. Non-trivial: >= 2 records in range."
+	c.Notes["rule"] = "each case: fresh chaincode; 0-9 origin-side transfers created through signed batched channelTransferByCustomer with ids from a pool (ids that are prefixes of each other, ids that differ only by trailing or leading white space, ids at and beyond '~', multi-byte ids up to the last code point U+10FFFF, duplicate ids, and ids on which path.Join is not concatenation: '.', '..', 'a/', '../to/x', 'a//b'), then committed / cancelled / committed+deleted at random; two destination-side records and unrelated keys just outside the range; all page sizes 1..n+1 and the two largest sizes the interface takes (2^31-2, 2^31-1) walked from the empty bookmark; single queries for sizes {1,2,n,n+1,2^31-1,0,-1,-100} x bookmarks {empty, every transfer key, keys outside the range, a non-existing key inside the range, the end key}. Plus sets of ids that differ only by white space at either end, all kept. Plus long listings: 230-330 records created in a permuted order, walked with page sizes 1, 7, 64, 99, 100, 101, 115, n-1, n, n+3, 1000. Plus single ids (fixed awkward ones, then random strings over letters, dots, slashes, blanks, multi-byte and invalid bytes, NUL) through CCFromTransfer / CCToTransfer / Base / IsValidID, each also used to create a record. Non-trivial: >= 2 records in range (an id case: a record was created, or the id has a dot or a slash)."
 	rng := c.Rng
-	clean := []string{"a", "ab", "b", "a0", "zz", "é", "0", "A", "abc", "b-1", "~", "a b", "a ", "a\t", "ab ", " a", "~z", "\u007f", "振込"}
+	clean := []string{"a", "ab", "b", "a0", "zz", "é", "0", "A", "abc", "b-1", "~", "a b", "a ", "a\t", "ab ", " a", "~z", "\u007f", "振込", "\U0010FFFF", "\U0010FFFFz", "\U0010FFFEz", "\uFFFDa"}
 	unclean := []string{".", "..", "a/", "../to/x", "a//b", "x/y"}
 	junkPool := []string{"/transfer/fro", "/transfer/from", "/transfer/from0", "/transfer/frommage", "/transfer/g", "/transfer/to0", "/u"}
 	n := c.N(60, 1500)
@@ -268,20 +269,76 @@ func genC20(c *Ctx) error {
 				junk = append(junk, j)
 			}
 		}
-		if err := c20Case(c, ids, junk, nil); err != nil {
+		if err := c20Case(c, ids, junk, nil, false); err != nil {
 			return err
+		}
+	}
+	// ids that differ only by white space at either end, all kept, every page size: every key is a bookmark once
+	for i := c.N(2, 20); i > 0; i-- {
+		pool := []string{"a", "a ", "a\t", "a\n", "ab", "ab ", " a", "b", "b ", "\tb", "a  ", "振込", "振込 "}
+		rng.Shuffle(len(pool), func(x, y int) { pool[x], pool[y] = pool[y], pool[x] })
+		if err := c20Case(c, pool[:6+rng.Intn(len(pool)-5)], junkPool[:2], nil, true); err != nil {
+			return err
+		}
+		c.Count("white_space_neighbours")
+	}
+	// single ids through core/cctransfer/paths.go (path.Join / path.Base / IsValidID against Model/Paths.v), and whether a
+	// record can be created under them
+	{
+		w := NewWorld()
+		if _, err := w.AddToken("TT", ChanOpts{}); err != nil {
+			return err
+		}
+		user := w.NewAccount(fpb.KeyType_ed25519)
+		w.SetBalance("tt", balance.BalanceTypeToken, user.AddrString(), "", big.NewInt(100000000))
+		nonce := uint64(1700000000000)
+		alphabet := []string{"a", "b", "A", ".", ".", "/", "/", " ", "é", "\U0010FFFF", "\xff", "0", "~", "\x00", "..", "./", "/.."}
+		fixed := []string{"", ".", "..", "...", "/", "//", "a/", "/a", "a//b", "a/./b", "a/../b", "../to/x", "../../x", "../from/a", "a/..", "./a", ".a", "a.", "..a",
+			"a/b/../../c", "\U0010FFFF", "\U0010FFFFz", "a\x00b", strings.Repeat("a", 300), strings.Repeat("../", 5) + "x"}
+		seen := map[string]bool{}
+		for i := c.N(200, 3000); i > 0; i-- {
+			id := ""
+			if len(fixed) > 0 {
+				id, fixed = fixed[0], fixed[1:]
+			} else {
+				for k := rng.Intn(7); k > 0; k-- {
+					id += alphabet[rng.Intn(len(alphabet))]
+				}
+			}
+			created := false
+			if !seen[id] {
+				msg := tokenRun(w, "tt", user, &nonce, "channelTransferByCustomer", id, "VT", "TT", "1")
+				created = msg == ""
+				if created {
+					// it exists: the point query finds it under this id
+					res := w.Peer.Invoke("tt", w.Client.Creator, "channelTransferFrom", id)
+					var rec struct {
+						ID string `json:"id"`
+					}
+					if !res.OK() || json.Unmarshal(res.Payload, &rec) != nil || rec.ID != id {
+						created = false
+						c.Count("path_created_but_not_found")
+					}
+				}
+			}
+			seen[id] = true
+			from := cctransfer.CCFromTransfer(id)
+			term := fmt.Sprintf("mkPath %s %s %s %s %s %s", coqStr(id), coqStr(from), coqStr(cctransfer.CCToTransfer(id)), coqStr(cctransfer.Base(from)),
+				coqBool(cctransfer.IsValidID(id)), coqBool(created))
+			c.Emit(term, map[string]interface{}{"path_id": id, "created": created}, created || strings.Contains(id, "/") || strings.Contains(id, "."))
+			c.Count(fmt.Sprintf("path_valid_%v_created_%v", cctransfer.IsValidID(id), created))
 		}
 	}
 	// long listings: more records than any page-size limit a layer in between might impose (130-260 records, created in
 	// a permuted order), walked with page sizes below, at and above 100 and above the number of records
 	for i := c.N(1, 6); i > 0; i-- {
-		nrec := 130 + rng.Intn(131)
+		nrec := 230 + rng.Intn(101) // about three fifths survive the life cycle below: well over 115 records stay
 		var ids []string
 		for _, j := range rng.Perm(nrec) {
 			ids = append(ids, fmt.Sprintf("r%03d", j))
 		}
 		ids = append(ids, "a ", "~z")
-		if err := c20Case(c, ids, junkPool[:3], []int64{1, 7, 64, 99, 100, 101, 115, int64(nrec) - 1, int64(nrec), int64(nrec) + 3, 1000}); err != nil {
+		if err := c20Case(c, ids, junkPool[:3], []int64{1, 7, 64, 99, 100, 101, 115, int64(nrec) - 1, int64(nrec), int64(nrec) + 3, 1000}, false); err != nil {
 			return err
 		}
 		c.Count("long_listing")
